@@ -245,7 +245,9 @@ OBLIGATIONS = [
          pre=_PRE,
          splits=[['get_fault == -1', 'fs_fault == -1', 's2 == -1', 't2 == 0', r] for r in _S1] +
                 [['get_fault >= 0', 'fs_fault == -1', 's2 == -1', 't2 == 0', r] for r in
-                 ('s1 == -1 and t1 == 0', '0 <= s1 <= 11', '12 <= s1 <= 23', '24 <= s1')] +
+                 ['s1 == -1 and t1 == 0'] + _S1[5:]] +
+                [[g, 'fs_fault == -1', 's2 == -1', 't2 == 0', r] for r in _S1[:5]
+                 for g in ('0 <= get_fault <= 1', '2 <= get_fault <= 3', '4 <= get_fault')] +
                 [['get_fault == -1', 'fs_fault >= 0', 's1 == -1', 't1 == 0', 's2 == -1', 't2 == 0']],
          splits_thorough=[['get_fault == -1', 'fs_fault == -1', r, r2] for r in _S1W for r2 in
                           ('s2 == -1 and t2 == 0', '0 <= s2 <= 15', '15 < s2')] +
